@@ -40,7 +40,7 @@ def run_config(prog, cfg):
                   {(x["function"], x["key"]): x["reason"] for x in t4.get("r04_3_exceptions", [])})
     for i in r3.insts:
         i.config = cfg
-    return [r1, r04_2(prog, cfg), r3, r04_5(prog, cfg), r04_6(prog, cfg), r04_7(prog, cfg)]
+    return [r1, r04_2(prog, cfg), r3, r04_4(prog, cfg), r04_5(prog, cfg), r04_6(prog, cfg), r04_7(prog, cfg)]
 
 
 def run(ctx):
@@ -460,6 +460,132 @@ def r04_7(prog, cfg):
                       "swallowed and the call's outputs are used as valid" % ({2: "RC_FAIL", 1: "RC_WMORE"}[v], re_.get("line"),
                                                                                " (the result was overwritten on the way)" if lost else ""),
                       e["line"], witness={"path": guards.path_lines(f, path), "assumed": v})
+    for i in r.insts:
+        i.config = cfg
+    return r
+
+
+# ------------------------------------------------------------------------------------------ R04.4
+def _wire_taint(f):
+    """(tainted scalar locals, pointers into the input): input = const byte/void pointer parameters; a value is tainted
+    when it is read through such a pointer, returned by or written (through &local) by a call that was given such a
+    pointer, or computed from a tainted value."""
+    from ..model import walk
+    ptrs = set()
+    for p in f.params:
+        t = p["type"].replace("const ", "").strip()
+        if t in ("void *", "uint8_t *", "char *", "unsigned char *") and "const" in p["type"]:
+            ptrs.add(p["id"])
+    T = set()
+
+    def has_ptr(t):
+        return any(m[0] == "var" and m[1] in ptrs for m in walk(t))
+
+    def tainted_tree(t):
+        for n in walk(t):
+            if n[0] == "var" and n[1] in T:
+                return True
+            if n[0] == "un" and n[1] == "*" and has_ptr(n[2]):
+                return True
+            if n[0] == "sub" and has_ptr(n[1]):
+                return True
+            if n[0] in ("call", "icall") and any(has_ptr(a) for a in n[3] if isinstance(a, list)):
+                return True
+        return False
+    changed = True
+    while changed:
+        changed = False
+        for b, i, e in f.events():
+            if e["k"] == "call":
+                args = [a.get("tree") for a in e.get("args", [])]
+                if any(a is not None and has_ptr(a) for a in args):
+                    for a in args:
+                        t = strip_casts(a)
+                        if isinstance(t, list) and t and t[0] == "un" and t[1] == "&" and is_var(t[2]) and strip_casts(t[2])[1] not in T:
+                            T.add(strip_casts(t[2])[1])
+                            changed = True
+            tgt = tree = None
+            if e["k"] == "assign" and e.get("base_id") and not e.get("deref") and e.get("lhs") == e.get("base") and "rhs" in e:
+                tgt, tree = e["base_id"], e["rhs"]["tree"]
+            elif e["k"] == "decl" and "init" in e:
+                tgt, tree = e["id"], e["init"]["tree"]
+            if tgt is None:
+                continue
+            if tgt not in T and tainted_tree(tree):
+                T.add(tgt)
+                changed = True
+            elif tgt not in ptrs and tgt not in T and has_ptr(tree) and "*" in (e.get("base_type") or e.get("type") or ""):
+                ptrs.add(tgt)
+                changed = True
+    return T, ptrs
+
+
+def r04_4(prog, cfg):
+    """No assertion on data taken from the encoding.  In everything reachable from a decoder slot, an assert() whose
+    condition reads a wire-tainted value must be implied by the branches that dominate it (their conditions, taken on
+    the dominating edge, decide the asserted comparison); otherwise a crafted input aborts the process instead of
+    producing RC_FAIL.  Asserts over untainted values (descriptor invariants, sizeof checks) are counted, not decided."""
+    from .. import assume
+    from . import common
+    from ..model import walk, tree_text
+    t4 = load_tables("c04")
+    exc = {(x["function"], x["key"]): x["reason"] for x in t4.get("r04_4_exceptions", [])}
+    r = Rule("R04.4", "no assertion on a value taken from the encoding unless the dominating branches imply it", floor=8 if cfg == "default" else 0)
+    cg = prog.callgraph()
+    scope = cg.reachable(common.slot_functions(prog, common.DECODER_SLOTS))
+    n_plain = 0
+    for k in sorted(scope):
+        f = prog.funcs[k]
+        asserts = [(b, i, e) for b, i, e in f.calls() if e.get("callee") == "__assert_fail"]
+        if not asserts:
+            continue
+        T, ptrs = _wire_taint(f)
+        dom = f.dominators()
+        for b, i, e in asserts:
+            text = ""
+            if e.get("args"):
+                for nd in walk(e["args"][0].get("tree")):
+                    if nd[0] == "str":
+                        text = str(nd[1])
+                        break
+            key = "assert(%s)" % " ".join(text.split())[:60]
+            # the branch whose failing edge enters the assert block
+            ctl = None
+            for p in f.blocks.values():
+                if p.term and "cond" in p.term and b.id in [s for s in p.succ if s is not None]:
+                    ctl = p
+            if ctl is None:
+                n_plain += 1
+                continue
+            tree = ctl.term["cond"].get("full_tree") or ctl.term["cond"]["tree"]
+            tv = sorted({n[1].split("@")[0] for n in walk(tree) if n[0] == "var" and n[1] in T})
+            if not tv:
+                n_plain += 1
+                r.ok(f, key, "condition reads no value derived from the input", e["line"], nontrivial=False)
+                continue
+            # facts from edge-dominating branches
+            facts = []
+            for d in dom.get(ctl.id, ()):
+                tb = f.blocks[d]
+                if d == ctl.id or not tb.term or "cond" not in tb.term or len(tb.succ) < 2 or tb.term["kind"] == "SwitchStmt":
+                    continue
+                for idx, truth in ((0, True), (1, False)):
+                    if f.edge_dominates(d, idx, ctl.id):
+                        fo = assume._fact_of(tb.term["cond"]["tree"], truth)
+                        if fo is not None:
+                            facts.append(fo)
+            # which edge of ctl enters the assert: the condition must hold on the other one
+            fail_idx = [idx for idx, s in enumerate(ctl.succ) if s == b.id][0]
+            implied = assume.fact_query(tuple(facts), ctl.term["cond"]["tree"])
+            holds = (implied is True and fail_idx == 1) or (implied is False and fail_idx == 0)
+            if holds:
+                r.ok(f, key, "implied by the dominating branches", e["line"])
+            elif (f.name, key) in exc:
+                r.exc(f, key, exc[(f.name, key)], e["line"])
+            else:
+                r.bad(f, key, "asserts on %s, which derive from the encoding, and no dominating branch establishes it: a crafted "
+                              "input aborts the process instead of failing the decode" % ", ".join(tv), e["line"])
+    r.note("%d assertions over values not derived from the input (not decided)" % n_plain)
     for i in r.insts:
         i.config = cfg
     return r
